@@ -642,6 +642,20 @@ def edges(rng, case, idx):
                     stored_res = cf.q * cf.mol_prefix / max(R.measure(res[1].contents, 'L'), 1e-300)
                     if abs(got - want) > 2e-6 * want + 2 * stored_res:
                         viol(['C12', 'C14', 'C03'], 'C12:extreme_dilution_does_not_hold_the_stated_concentration:trillion_fold', {'target': target, 'total': tot, 'got_mol_per_L': got})
+            M.bucket(case['prop'] + '/edge/E22_quantity_in_moles_with_a_diluent_poor_in_moles')
+            bsa, lys4 = S.solid('BSA', 66430.0), S.enzyme('lysozyme', '40000 U/mg')
+            brine1 = C('stock', initial_contents=[(water, '1 L'), (salt, '58.44 g')])
+            prep = C('prep', initial_contents=[(lys4, '5000 U'), (bsa, '10 mg')])
+            prep2 = C('prep2', initial_contents=[(lys4, '5000 U'), (kcl, '1 ug')])
+            for target, tot, dil_ in (('0.1 mM', '5.65 mmol', prep), ('0.2 mM', '20 mmol', prep), ('0.9 mM', '4 g', prep2)):
+                res, exc = attempt(lambda: C.create_solution_from(brine1, salt, target, dil_, tot))
+                if exc is not None:
+                    viol(['C12', 'C03'], f'C12:feasible_request_refused:quantity_in_moles_with_a_diluent_poor_in_moles:{type(exc).__name__}', {'target': target, 'total': tot, 'exc': repr(exc)[:120]})
+                else:
+                    got = R.concentration(res[2].contents, salt, 'mol', 'L')
+                    want = R.parse_concentration(target)[0]
+                    if abs(got - want) > 1e-4 * want:
+                        viol(['C12', 'C03'], 'C12:concentration_not_met:quantity_in_moles_with_a_diluent_poor_in_moles', {'target': target, 'total': tot, 'got_mol_per_L': got})
             M.bucket(case['prop'] + '/edge/E22_total_at_the_stocks_own_concentration')
             for conc, tot in (('1 ng/L', '50 mL'), ('3 ng/L', '20 mL'), ('1 ug/L', '50 mL'), ('10 ng/L', '10 mL')):
                 stock, exc = attempt(lambda: C.create_solution(oligo, water, concentration=conc, total_quantity='1 L'))
@@ -964,6 +978,35 @@ def edges(rng, case, idx):
                     res, exc = attempt(lambda: r.get_substance_used(water, 'dry', 'umol', destinations=[plate_]))
                     if exc is not None or abs(res) > 1e-3:
                         viol(['C09', 'C17'], 'C09:net_change_of_zero_refused_as_a_decrease:remove:large_plate', {'plate': [rows_, cols_], 'per_well': per_well, 'answer': res, 'exc': repr(exc)[:120]})
+            M.bucket(case['prop'] + '/edge/E29_a_solution_step_between_two_destinations')
+            glc = S.solid('glucose', 180.16)
+            salt_ = S.solid('NaCl', 58.44)      # (the molar mass the round-16 hunter's cases were found with: which requests hit the odd stored digit depends on it)
+            for w_ml, mg_, conc_, tot_ in ((0.7, 10, '1 mM', '0.2 mL'), (0.8, 10, '10 mM', '0.25 mL'), (0.75, 10, '1 mM', '150 uL'), (0.8, 5, '0.1 M', '0.2 mL')):
+                st_ = C('stock', initial_contents=[(water, f'{w_ml} mL'), (salt_, f'{mg_} mg')])
+                r = pp.Recipe().uses(st_)
+                r.start_stage('prep')
+                new_ = r.create_solution(glc, st_, 'new', concentration=conc_, total_quantity=tot_)
+                r.end_stage('prep')
+                r.start_stage('top up')
+                r.fill_to(new_, water, '1 mL')
+                r.end_stage('top up')
+                _, exc = attempt(lambda: r.bake())
+                if exc is None:
+                    res, exc = attempt(lambda: r.get_substance_used(water, 'prep', 'umol', [st_, new_]))
+                    if exc is not None or abs(res) > 1e-3:
+                        viol(['C09'], 'C09:net_change_of_zero_refused_as_a_decrease:solution_step', {'stock_mL': w_ml, 'NaCl_mg': mg_, 'solution': [conc_, tot_], 'answer': res, 'exc': repr(exc)[:120]})
+                        break
+            for contents_, target_, tot_ in ((('0.4943 mL', '26.02 mg', '0.1505 mg'), '0.6079 M', '0.4185 mL'), (('0.7312 mL', '15.48 mg', '2.89 mg'), '0.2407 M', '0.334 mL')):
+                st_ = C('stock', initial_contents=[(water, contents_[0]), (salt_, contents_[1]), (kcl, contents_[2])])
+                r = pp.Recipe().uses(st_)
+                r.start_stage('prep')
+                new_ = r.create_solution_from(st_, salt_, target_, dmso, tot_, 'new')
+                r.end_stage('prep')
+                _, exc = attempt(lambda: r.bake())
+                if exc is None:
+                    res, exc = attempt(lambda: r.get_substance_used(water, 'prep', 'umol', [st_, new_]))
+                    if exc is not None or abs(res) > 1e-3:
+                        viol(['C09'], 'C09:net_change_of_zero_refused_as_a_decrease:solution_from_step', {'stock': contents_, 'solution': [target_, tot_], 'answer': res, 'exc': repr(exc)[:120]})
             M.bucket(case['prop'] + '/edge/E29_a_loss_after_stamps_back_and_forth')
             lig = S.solid('ligand', 500.0)
             st = C('stock', '1 L', [(water, '100 mL'), (lig, '1 nmol')])        # 10 nM
@@ -1191,6 +1234,15 @@ def edges(rng, case, idx):
                     tot_u = sum(a_ for s_, a_ in res.contents.items() if s_.is_enzyme())
                     if res.contents.get(cat_, 0.0) > 1e6 * cf.q and abs(res.contents[cat_] / tot_u - want) > 1e-7:
                         viol(['C05', 'C03'], 'C05:stated_concentration_not_met:solute_stated_per_a_trace_solute', {'concentrations': concs, 'total': tot, 'catalase_share_of_activity': res.contents[cat_] / tot_u, 'stated': want})
+            M.bucket(case['prop'] + '/edge/E31_a_trace_in_moles_next_to_a_dilute_enzyme')
+            amy50, lip3 = S.enzyme('amylase', '50 U/mg'), S.enzyme('lipase', '3 U/ug')
+            for enz_, concs, tot in ((amy50, ['1 pg/kg', '10 kU/kg'], '1 kL'), (lip3, ['1 pg/kg', '100 kU/mol'], '10 kg'), (amy50, ['1 pM', '20 U/g'], '100 kg')):
+                res, exc = attempt(lambda: C.create_solution([salt, enz_], water, concentration=concs, total_quantity=tot))
+                if exc is None and res.contents.get(salt, 0.0) > 1e3 * cf.q:
+                    v, num, den = R.parse_concentration(concs[0])
+                    got = R.concentration(res.contents, salt, num, den)
+                    if abs(got - v) > 2e-3 * v:
+                        viol(['C05', 'C03'], 'C05:stated_concentration_not_met:trace_next_to_a_dilute_enzyme', {'concentrations': concs, 'total': tot, 'got': got, 'want': v, 'unit': f'{num}/{den}'})
             M.bucket(case['prop'] + '/edge/E31_per_unit_of_activity_with_an_enzyme_in_the_solvent_container')
             stock = C('lipase stock', initial_contents=[(water, '1 L'), (lipa, '2000 U')])
             res, exc = attempt(lambda: C.create_solution([amyl, salt], stock, concentration=['0.5 U/mL', '1 mmol/U'], total_quantity='10 mL'))
